@@ -249,6 +249,21 @@ func concBody(x *Exec, raw json.RawMessage) {
 		if sum > max {
 			x.Fail("bound-exceeded", "maximum@"+p.Label, "total weight %d exceeds the maximum %d at quiescence after CleanUp", sum, max)
 		}
+		// the same through the reading operations (an entry that iteration skips but that lookups still return counts too)
+		var probed uint64
+		for k := 0; k < 32; k++ {
+			if v, ok := c.GetIfPresent(k); ok {
+				probed += weightOf(p.Cfg, v)
+			}
+		}
+		if probed > max {
+			x.Fail("bound-exceeded", "lookups@"+p.Label, "the entries that GetIfPresent returns weigh %d, the maximum is %d (at quiescence after CleanUp)", probed, max)
+		}
+		if p.Cfg.MaxSize > 0 && p.Cfg.Expiry == "" {
+			if es := c.EstimatedSize(); uint64(es) > max {
+				x.Fail("bound-exceeded", "EstimatedSize@"+p.Label, "EstimatedSize() = %d exceeds the maximum %d at quiescence after CleanUp", es, max)
+			}
+		}
 		for _, e := range r.Events {
 			if e.Cause == otter.CauseOverflow && weightOf(p.Cfg, e.Val) == 0 {
 				x.Fail("zero-weight-evicted", "entry@"+p.Label, "zero-weight entry %d=%d was evicted for size", e.Key, e.Val)
@@ -273,7 +288,7 @@ func concBody(x *Exec, raw json.RawMessage) {
 		}
 		checkSingleFlight(x, r, p, recs, tids)
 		// a later Get loads afresh: no in-flight record may be left behind (audited) and the loader runs again
-		if st := c.VerifStatus(); st.InFlightCalls != 0 {
+		if st := c.VerifStatus(); st.InFlightCalls > 0 {
 			x.Fail("inflight-left", "singleflight@"+p.Label, "%d in-flight load records remain after every call returned", st.InFlightCalls)
 		}
 		for k := 1; k <= 3; k++ {
@@ -401,6 +416,9 @@ func concBody(x *Exec, raw json.RawMessage) {
 	}
 	if has(p.Oracles, "lin") {
 		checkLinearizable(x, r, p, setupRecs, recs, nAtomicSetup)
+	}
+	if has(p.Oracles, "published") {
+		checkPublished(x, r, p, recs, nAtomicSetup)
 	}
 	if has(p.Oracles, "deadline-setters") {
 		checkDeadlineSetters(x, r, p, recs)
@@ -783,6 +801,44 @@ func checkLedger(x *Exec, r *Rig, p concParams, ops []opRec, contents map[int]in
 	for i, e := range r.Atomic {
 		if _, seen := pos[e.Val]; !seen {
 			pos[e.Val] = i
+		}
+	}
+	// values installed by explicit writes: those of the set-up were installed before every value of the run, and two
+	// writes of one key issued by one thread were installed in program order
+	type inst struct{ val, key, th, idx int }
+	var insts []inst
+	for i, rc := range ops {
+		if rc.res.Panic != "" {
+			continue
+		}
+		f := strings.Fields(rc.op)
+		wrote := false
+		switch f[0] {
+		case "set", "cw":
+			wrote = rc.res.Int != 0
+		case "sia":
+			wrote = rc.res.OK && rc.res.Int != 0
+		case "cipw":
+			wrote = rc.res.Calls > 0 && rc.res.Int != 0
+		}
+		if wrote {
+			insts = append(insts, inst{rc.res.Int, atoi(f[1]), rc.th, i})
+		}
+	}
+	for _, a := range insts {
+		for _, b := range insts {
+			if a.key != b.key || a.val == b.val {
+				continue
+			}
+			before := a.th == -1 && b.th != -1 || a.th == b.th && a.idx < b.idx
+			if !before {
+				continue
+			}
+			pa, oka := pos[a.val]
+			pb, okb := pos[b.val]
+			if oka && okb && pb < pa {
+				x.Fail("event-order", "OnAtomicDeletion"+lbl, "key %d: value %d was installed after %d but its removal was reported first", a.key, b.val, a.val)
+			}
 		}
 	}
 	for a, b := range succ {
